@@ -26,6 +26,9 @@ LEAN_MODULES = ["HalmosVerif.Props.C16"]
 RULE = (
     "(a) parse_unsat_core on real yices/z3 answers to named-assertion queries and on synthetic answers (blank/paren/error-line "
     "variants, glued ids, junk) and check_unsat_cores on random id sets, real vs Lean vs an independent subset test; "
+    "(a2) cycles v0<v1<...<v0 of 30-60 conditions (every one needed) through the real pipeline with yices and z3, so the real wrapped "
+    "multi-line core goes through parse_unsat_core: stored core == ids printed (read independently) and a later satisfiable sub-query is not "
+    "answered from the cache; synthetic wrapped cores; "
     "(b) histories of queries built from z3 conditions through the real Path.append/to_smt2 -> solve_end_to_end -> "
     "_solve_end_to_end_callback with the real SolvingContext (yices and z3), cache on vs cache off vs z3's own verdict on the "
     "conditions, in two modes: paths retained (as run_test does through the futures) and paths dropped with gc.collect() between "
@@ -190,6 +193,83 @@ def correspond(ctx):
         if got != want:
             ctx.violation("check_unsat_cores:not-a-subset-test", f"{universe} {cores} -> {got}", {"kind": "check", "ids": universe, "cores": cores})
         reqs.append((f"check {fmt_ids(universe)} {';'.join(','.join(c) or 'e' for c in cores) or '-'}", "1" if got else "0", f"check {universe} {cores}"))
+
+    # =============================================================== (a2) long cores: the solver wraps its (get-unsat-core) answer
+    # n conditions v0<v1<...<v(n-1)<v0: every one is needed, so the core has n members and yices prints it on several lines.
+    # Through the real Path.to_smt2 -> solve_end_to_end -> callback; the stored core must be exactly the ids the solver printed,
+    # and a later *satisfiable* query made of all but one of the conditions must not be answered from the cache.
+    import re as _re
+
+    def truth0(conds):
+        sv = z3.Solver()
+        sv.set(timeout=5000)
+        sv.add(*conds)
+        return str(sv.check())
+
+    for li in range(ctx.scale(4, 24)):
+        n = rng.choice([30, 36, 45, 60]) if li else 40
+        sname = "yices" if li % 2 == 0 else "z3"
+        vs = [z3.BitVec(f"p_c{li}_{k}_uint256", 256) for k in range(n)]
+        chain = [z3.ULT(vs[k], vs[(k + 1) % n]) for k in range(n)]
+        on = Pipeline(eng, True, solver_cmds[sname])
+        pA = Path(mk_solver(eng.base_args))
+        for c in chain:
+            pA.append(c)
+        condsA = list(pA.conditions)
+        vA, idsA, coreA, newA = on.query(pA)
+        raw = FsPath(str(on.fctx.solving_ctx.dump_dir.name if hasattr(on.fctx.solving_ctx.dump_dir, "name") else on.fctx.solving_ctx.dump_dir)) / f"{on.n}.smt2.out"
+        out = raw.read_text() if raw.exists() else ""
+        printed = _re.findall(r"<([0-9]+)>", out)
+        core_lines = [l for l in out.splitlines() if "<" in l]
+        ctx.case(f"longcore|{n}|{sname}|{len(core_lines)}", nontrivial=len(core_lines) > 1)
+        ctx.count(f"longcore:{sname}:n={n}:lines={min(len(core_lines), 5)}:verdict={vA}")
+        if vA == "unsat":
+            outs_extra = out
+            got = parse_unsat_core(out)
+            reqs.append((f"core {hexs(out)}", "none" if got is None else "some " + (",".join(got) or "-"), f"core[long {sname} n={n}]"))
+            if got is None or sorted(got) != sorted(printed) or coreA != got:
+                ctx.violation("parse_unsat_core:wrapped-core-truncated-or-misread",
+                              f"{sname}, {n}-member core printed on {len(core_lines)} line(s): solver printed {len(printed)} ids, parse_unsat_core returns "
+                              f"{None if got is None else len(got)} ids, stored core has {None if coreA is None else len(coreA)}",
+                              {"kind": "core", "stdout": out})
+            if not set(printed) <= set(idsA) or len(printed) < n:
+                ctx.count("longcore:solver-core-not-minimal-or-foreign")
+            # later satisfiable query: drop one condition that is not on the first printed line (any one if the core is on one line)
+            first_line = set(_re.findall(r"<([0-9]+)>", core_lines[0])) if core_lines else set()
+            cand = [k for k, c in enumerate(condsA) if str(c.get_id()) not in first_line] or list(range(len(condsA)))
+            drop = rng.choice(cand)
+            pB = Path(mk_solver(eng.base_args))
+            for k, c in enumerate(condsA):
+                if k != drop:
+                    pB.append(c)
+            tB = truth0(list(pB.conditions))
+            vB, idsB, _, _ = on.query(pB)
+            ctx.count(f"longcore:later-query:{sname}:on={vB}:truth={tB}")
+            if tB == "sat" and vB == "unsat":
+                ctx.violation("unsat-core-cache:truncated-core-flips-verdict",
+                              f"{sname}: a {n}-condition cycle v0<v1<...<v0 is unsat (core printed on {len(core_lines)} lines, {len(printed)} ids); the stored core "
+                              f"{on.fctx.solving_ctx.unsat_cores[-1:]} has {len(on.fctx.solving_ctx.unsat_cores[-1]) if on.fctx.solving_ctx.unsat_cores else 0} ids; "
+                              f"the satisfiable query without condition #{drop} is answered unsat from the cache",
+                              {"kind": "longcore", "n": n, "solver": sname})
+            del pB
+        on.close()
+        del pA, condsA, chain
+    # synthetic wrapped cores (independent reading: every <id> between `unsat` [+ error line] and the closing parenthesis)
+    for _ in range(ctx.scale(40, 600)):
+        ids = [str(rng.randrange(1, 10**5)) for _ in range(rng.randrange(1, 70))]
+        per = rng.choice([1, 3, 8, 16, 22])
+        rows = [" ".join(f"<{i}>" for i in ids[k:k + per]) for k in range(0, len(ids), per)]
+        body = "(" + rng.choice(["\n ", "\n", "\n  "]).join(rows) + ")"
+        err = rng.choice(["", '(error "the context is unsatisfiable")\n', '(error "line 1 column 268: model is not available")\n'])
+        out = "unsat\n" + err + body + "\n"
+        got = parse_unsat_core(out)
+        ctx.case("corewrap|" + out, nontrivial=len(rows) > 1)
+        ctx.count(f"core:wrapped:lines={min(len(rows), 4)}")
+        if got != ids:
+            ctx.violation("parse_unsat_core:wrapped-core-truncated-or-misread",
+                          f"synthetic {len(ids)}-id core on {len(rows)} line(s): parse_unsat_core returns {None if got is None else len(got)} ids",
+                          {"kind": "core", "stdout": out})
+        reqs.append((f"core {hexs(out)}", "none" if got is None else "some " + (",".join(got) or "-"), "core[wrapped]"))
 
     # =============================================================== (b) histories
     seen = {}           # id -> sexpr digest, per SolvingContext history
@@ -517,12 +597,12 @@ def correspond(ctx):
     # =============================================================== Lean
     reqs = [r for r in reqs if r]
     replies = ctx.lean("Cache").ask([r for r, _, _ in reqs])
-    for (req, exp, label), got in zip(reqs, replies):
-        if got != exp:
-            raise RuntimeError(f"Lean model and implementation disagree on {label}: request {req[:300]}\n  impl : {exp}\n  model: {got}")
+    mism = [f"{label}: request {req[:300]}\n  impl : {exp}\n  model: {got}" for (req, exp, label), got in zip(reqs, replies) if got != exp]
     ctx.note(f"lean requests: {len(reqs)}; histories: {nhist}; unstable ids seen: {len(unstable)}; recipes: {len(recipes)}/{tries}; flipped: {len(flipped)}")
     shutil.rmtree(tmp, ignore_errors=True)
     logging.disable(logging.NOTSET)
+    if mism:
+        raise RuntimeError(f"Lean model and implementation disagree on {len(mism)} case(s); first: " + mism[0])
 
 
 def replay(ctx, data) -> bool:
